@@ -385,7 +385,12 @@ impl Display for SequencedSegment {
 
 impl StreamSocket {
     fn new(capacity: usize) -> (Self, mpsc::Receiver<SequencedSegment>, BidiFlowControl) {
-        let (tx, rx) = mpsc::channel(capacity);
+        // Data segments are bounded to `capacity` by the sender's flow-control
+        // credits, but a FIN is sent without a credit. Reserve one extra slot
+        // for it, otherwise a FIN that arrives while `capacity` data segments
+        // are still unread is parked in the reorder buffer forever and the
+        // reader never observes EOF.
+        let (tx, rx) = mpsc::channel(capacity + 1);
         let flow_control = BidiFlowControl::new(capacity);
         let sock = Self {
             buf: IndexMap::new(),
